@@ -30,6 +30,8 @@ var zzTexts = []string{
 	"vars { number $n }\nsend [USD *] (\n  source = $n\n",
 	// navigation only: variables in every operand position of infix expressions, caps, limits, allotments
 	"vars {\n  monetary $cap\n  number $n\n  account $dest\n  portion $p\n}\nsend [USD 10] (\n  source = { max $cap from @a @world }\n  destination = { max $cap kept max [USD $n] kept $p to { max $cap to $dest remaining kept } remaining to $dest }\n)\nsave $cap from $dest\n",
+	// calls with too few arguments
+	"vars {\n  account $acc\n  string $key\n  monetary $bal = balance($acc)\n}\nset_account_meta($acc, $key)\nset_tx_meta($key)\nsend $bal (\n  source = $acc\n  destination = @b\n)\n",
 	// several statements on one line; a declaration with a misspelt type
 	"vars { string $key number $val }\nset_tx_meta($key, 1) set_tx_meta(\"other\", $val) send [USD $val] (\n  source = @a\n  destination = @b\n) set_account_meta(@a, $key, $val)\n",
 	"vars {\n  acount $dest\n  monetary $m\n}\nsend $m (\n  source = @world\n  destination = $dest\n)\n",
